@@ -47,6 +47,8 @@ F64_PCMP = "core::cmp::impls::<impl core::cmp::PartialOrd for f64>::partial_cmp"
 RANGE_CONTAINS = "core::ops::RangeInclusive::<Idx>::contains"
 RANGE_NEW = "core::ops::RangeInclusive::<Idx>::new"
 IS_NAN = "core::f64::<impl f64>::is_nan"
+IS_FINITE = "core::f64::<impl f64>::is_finite"
+IS_VALID = "TwoFloat::is_valid"     # is_finite(hi) && is_finite(lo) && no_overlap(hi, lo): rule R17; the link below is proved as R12v
 OPT_EQ = "<core::option::Option<T> as core::cmp::PartialEq>::eq"
 
 def pcmp_kind(name):
@@ -224,6 +226,17 @@ def eval_bool(c, env):
                     if other is not None and tag(other) == "const" and f64v(other) == f64v(other):
                         env.val[v] = (r == "un")
                         return env.val[v]
+            # a finite word is not NaN; a word of a valid value is not NaN
+            if env.val.get(("bool", mk("call", IS_FINITE, c[2]))) is True:
+                env.val[v] = False; return False
+            if tag(c[2]) == "field" and c[2][2] in (0, 1) and env.val.get(("bool", mk("call", IS_VALID, c[2][1]))) is True:
+                env.val[v] = False; return False
+        if t == "call" and c[1] == IS_FINITE and len(c) == 3 and env.val.get(("bool", mk("call", IS_NAN, c[2]))) is True:
+            env.val[v] = False; return False
+        if t == "call" and c[1] == IS_VALID and len(c) == 3:
+            for i in (0, 1):
+                if env.val.get(("bool", mk("call", IS_NAN, mk("field", c[2], i)))) is True:
+                    env.val[v] = False; return False
         raise Undetermined(v, (True, False))
     return env.val[v]
 
